@@ -56,6 +56,7 @@ def run(seed=0):
     ok("utf8: invalid bytes raise UnicodeDecodeError", all(raises(lambda b=b: b.decode("utf-8"), UnicodeDecodeError) for b in (b"\xff", b"\xc3", b"\xed\xa0\x80")))
     ok("latin1: decode is total and length preserving", all(len(bytes([b]).decode("latin-1")) == 1 for b in range(256)))
     ok("BytesIO.read(n): next n bytes or fewer at end; read(n<0) returns the rest", io.BytesIO(b"abc").read(2) == b"ab" and io.BytesIO(b"abc").read(5) == b"abc" and io.BytesIO(b"abc").read(-1) == b"abc" and io.BytesIO(b"").read(1) == b"")
+    ok("str.rfind: last index or -1", "a=b=c".rfind("=") == 3 and "abc".rfind("=") == -1 and "".rfind("=") == -1 and "==".rfind("=") == 1)
     ok("str.find: first index or -1", "a=b=c".find("=") == 1 and "abc".find("=") == -1 and "".find("=") == -1)
     ok("slicing clamps", "abc"[:10] == "abc" and "abc"[5:] == "" and "abc"[-10:2] == "ab" and "abc"[2:1] == "")
     ok("True == 1 and hash(True) == hash(1) (bool/int key coincidence)", True == 1 and hash(True) == hash(1) and {1: "a", True: "b"} == {1: "b"})
